@@ -13,6 +13,12 @@ Structural necessary conditions decided on the resolved program (never behaviour
  E2 end-of-data-on-all-paths the end-of-data push is executed on every normal path and on every handler path
  H1 header-promise-guarded   the header promise is touched only in test-and-set guarded setters; the flag is never reset
  H2 run-sets-header          every Parser::run override (or the class' constructor) calls the value setter on all normal exits
+ H3 header-set-before-object-data   every call that starts object data (maybe_new_buffer, send_to_output_queue in a parser
+                             class) is reached only after the header value setter, in the function itself, in every caller,
+                             or in the class' constructor (a consumer in header() vs. a parser blocked on the full queue)
+ X1 parser-handler-keeps-upstream-errors   a handler of the parser stage whose try block pops the input queue and which catches
+                             a type the read thread can throw (derived from the throw sites + bases) rethrows/throws/forwards
+                             on every path; catch (...) included
  S1 status-gates-access      Reader::read pops the osmdata queue only in status okay; header() never waits on the header
                              future in status error
  S2 handler-closes-marks-error-rethrows   each catch (...) guarding those accesses calls close(), then stores status error,
@@ -418,11 +424,11 @@ def rule_header_promise(fb, R):
     rec = fb.record(PARSER)
     if rec is None:
         R.broken('record %s not found' % PARSER)
-        return
+        return set()
     pf = _promise_field(rec)
     if pf is None:
         R.broken('%s: no std::promise member found' % PARSER)
-        return
+        return set()
     value_setters = set()
     flags = set()
     nacc = 0
@@ -492,7 +498,7 @@ def rule_header_promise(fb, R):
     run = next((m for m in rec.methods if m['q'] == PARSER + '::run'), None)
     if run is None or not value_setters:
         R.broken('Parser::run / header value setter not found')
-        return
+        return set()
     ovs = _dedupe([g for g in fb.overriders(run['u']) if g.has_cfg])
     if not ovs:
         R.broken('no override of Parser::run in the fact base')
@@ -510,6 +516,153 @@ def rule_header_promise(fb, R):
         R.check(w is None or okc, 'H2-run-sets-header', g.q + '#sets-header', g.site,
                 '%s can return normally without the header promise being fulfilled (Reader::header() then throws broken_promise '
                 'although the file was read): %s' % (g.q, _dp(g, w)))
+    return value_setters
+
+
+# ------------------------------------------------------------------------------------------------ X1 / H3 (parser stage)
+
+def _parser_stage_functions(fb, E):
+    """Parser::parse and everything it can run (virtual run() overriders and their helpers, lambdas handed to std algorithms)."""
+    roots = [f for f in fb.fns(PARSER + '::parse') if f.has_cfg]
+    seen = {}
+    work = [(f, 0) for f in roots]
+    while work:
+        f, d = work.pop()
+        if id(f) in seen:
+            continue
+        seen[id(f)] = f
+        if d >= 12:
+            continue
+        for n in f.all_nodes():
+            if n.get('k') in ('call', 'construct') and 'q' in n:
+                for g in E.targets(f, n):
+                    if g.q.startswith('osmium::'):
+                        work.append((g, d + 1))
+    return list(seen.values())
+
+
+def rule_parser_handlers(fb, R, E):
+    """X1: errors of the upstream stage reach the parser as stored exceptions re-thrown by queue_wrapper::pop().  A handler of
+    the parser stage whose try block (transitively) pops the input queue and which catches a type that the producer side can
+    throw must not swallow it: every path through it rethrows, throws, or forwards the exception (promise / queue)."""
+    # producer side: everything thrown in the functions of the read thread
+    prod = {}
+    for s in thread_starts(fb):
+        if s['fn'].cls != RTM:
+            continue
+        for e in _dedupe(s['entries']):
+            for f in [e] + [g for g in _chain(fb, E, e)]:
+                for st in E.sites(f):
+                    for typ, w in st.thrown.items():
+                        if typ != ANY:
+                            prod.setdefault(typ, (st, w))
+    if not prod:
+        R.broken('X1: no exception type thrown on the producer side of the input queue found')
+        return
+
+    def is_forward(fn, c):
+        if c.get('q') == 'std::promise::set_exception':
+            return True
+        if c.get('q') == ADDQ:
+            g = fb.by_usr.get(c.get('u'), [])
+            return bool(g and len(g[0].params) > 1 and 'exception_ptr' in g[0].params[1]['tC'])
+        return False
+    n = 0
+    for f in _dedupe(_parser_stage_functions(fb, E)):
+        for t in f.tries:
+            pops = False
+            for c in f.all_nodes():
+                if c.get('k') == 'call' and 'q' in c and 'o' in c and t['b'] <= c['o'] <= t['e']:
+                    cl = {c['q']}
+                    for g in E.targets(f, c):
+                        cl |= fb.callees_closure(g, 8) | {g.q}
+                    if QW + '::pop' in cl:
+                        pops = True
+                        break
+            if not pops:
+                continue
+            fwd = _must_elems(fb, f, is_forward)
+            taken = set()
+            for h in t['handlers']:
+                caught = sorted(typ for typ in prod if typ not in taken and
+                                (h.get('all') or (h.get('typeq') or h.get('type')) == typ or (h.get('typeq') or h.get('type')) in E.bases.get(typ, ())))
+                taken |= set(caught)
+                n += 1
+                hname = '...' if h.get('all') else (h.get('typeq') or h.get('type'))
+                key = '%s#catch(%s)' % (f.q, hname)
+                hb = handler_entry_block(f, h)
+                if hb is None:
+                    R.broken('%s: cannot locate the handler block of catch (%s)' % (f.q, hname))
+                    continue
+
+                def ends(e, f=f, h=h, fwd=fwd):
+                    if e in fwd and _in_handler(h, f.nodes[e]):
+                        return True
+                    x = f.nodes.get(e)
+                    return x is not None and x.get('k') == 'throw' and _in_handler(h, x)
+                w = path_search(f, hb, _exit_t, ends, from_block_start=True) if caught else None
+                msg = None
+                if w is not None:
+                    st, wit = prod[caught[0]]
+                    msg = ('catch (%s) in %s swallows %s, which the read thread can store into the input queue (%s) and queue_wrapper::pop() '
+                           're-throws inside this try block: a failed read/decompression is turned into a normal result and reported nowhere'
+                           % (hname, f.q, ', '.join(caught), E.chain(wit, caught[0])))
+                R.check(w is None, 'X1-parser-handler-keeps-upstream-errors', key, '%s:%s' % (f.file, h.get('l', f.line)), msg,
+                        detail='producer-side types caught here: %s' % (caught or 'none'))
+    if n == 0:
+        R.broken('X1: no handler around an input-queue pop found in the parser stage (Parser::parse expected)')
+
+
+DATA_START = (NS + 'ParserWithBuffer::maybe_new_buffer', PARSER + '::send_to_output_queue')
+
+
+def rule_header_before_data(fb, R, value_setters):
+    """H3: object data is handed to the result queue (or a new buffer is started for an object) only after the header promise
+    has been fulfilled: a consumer that waits in header() while the parser blocks on the full result queue would deadlock."""
+    classes = _parser_classes(fb) - {NS + 'ParserWithBuffer'}
+    if not classes or not value_setters:
+        R.broken('H3: parser classes / header value setter not found')
+        return 0
+
+    def is_set(fn, n):
+        return n.get('q') in value_setters
+    memo = {}
+    fns = _dedupe([g for g in fb.functions if g.cls in classes and g.has_cfg and not g.is_lambda])
+    callers = {}
+    for g in fns:
+        for c in g.all_nodes():
+            if c.get('k') == 'call' and c.get('u') and not c.get('virt'):
+                for t in fb.by_usr.get(c['u'], []):
+                    if t.cls in classes:
+                        callers.setdefault(t.q, []).append((g, c))
+    ctor_sets = {cq for cq in classes if any(must_call(fb, c, is_set, 4, memo) is None for c in fb.fns(cq + '::(ctor)'))}
+
+    def before(g, nid, depth=0):
+        el = elem_of(g, nid)
+        se = _must_elems(fb, g, is_set, 4, memo)
+        if path_search(g, g.entry, lambda e: e == el, lambda e: e in se, from_block_start=True) is None:
+            return True
+        cs = callers.get(g.q, [])
+        return bool(cs) and depth < 4 and all(before(cg, c['id'], depth + 1) for (cg, c) in cs)
+    n = 0
+    for g in fns:
+        for c in g.all_nodes():
+            if c.get('k') != 'call' or c.get('q') not in DATA_START:
+                continue
+            n += 1
+            what = c['q'].rsplit('::', 1)[-1]
+            arg = None
+            if c['q'] == DATA_START[0] and c.get('args'):
+                a = g.sn(c['args'][0])
+                if a is not None and a.get('k') == 'var' and a.get('vk') == 'enumconst':
+                    arg = a['q'].rsplit('::', 1)[-1]
+            key = '%s#header-before:%s%s' % (g.q, what, '(%s)' % arg if arg else '')
+            ok = g.cls in ctor_sets or before(g, c['id'])
+            R.check(ok, 'H3-header-set-before-object-data', key, g.loc(c['id']),
+                    '%s reaches %s%s without the header promise having been fulfilled on some path: object data is queued before the header; '
+                    'a consumer blocked in Reader::header() while the parser blocks on the full result queue never returns'
+                    % (g.q, what, '(%s)' % arg if arg else ''))
+    return n
 
 
 # ------------------------------------------------------------------------------------------------ S1..S3
@@ -1399,7 +1552,10 @@ def all_rules(fb, R, fbq=None):
     E = Esc(fb)
     chains = rule_thread_entries(fb, R, E)
     rule_stage_forwarding(fb, R, chains)
-    rule_header_promise(fb, R)
+    setters = rule_header_promise(fb, R)
+    if not rule_header_before_data(fb, R, setters):
+        R.broken('H3: no call that starts object data (maybe_new_buffer / send_to_output_queue) found in the parser classes')
+    rule_parser_handlers(fb, R, E)
     rule_reader_state(fb, R, E)
     rule_read_loop(fb, R)
     if not rule_parser_input_loops(fb, R):
@@ -1426,6 +1582,8 @@ def run(ctx):
     R.expect('E2-catch-all-forwards-exception', 3)   # both stages + header promise in parse
     R.expect('H1-header-promise-guarded', 2)         # set_header_value, set_header_exception
     R.expect('H2-run-sets-header', 4)                # XML, PBF, O5m, OPL
+    R.expect('H3-header-set-before-object-data', 4)  # 11 today (XML 4, O5m 3, OPL 3, PBF 1); at least one per parser
+    R.expect('X1-parser-handler-keeps-upstream-errors', 2)   # Parser::parse catch (...), PBFParser::read_blob_header_size_from_file
     R.expect('S1-status-gates-access', 2)            # read#pop, header#future-get
     R.expect('S2-handler-closes-marks-error-rethrows', 6)
     R.expect('S3-close-stores-closed', 1)
@@ -1453,7 +1611,9 @@ def _selftest(fb, R):
     E = Esc(fb)
     chains = rule_thread_entries(fb, R, E)
     rule_stage_forwarding(fb, R, chains)
-    rule_header_promise(fb, R)
+    setters = rule_header_promise(fb, R)
+    rule_header_before_data(fb, R, setters)
+    rule_parser_handlers(fb, R, E)
     rule_reader_state(fb, R, E)
     rule_read_loop(fb, R)
     rule_parser_input_loops(fb, R)
@@ -1474,7 +1634,7 @@ def _selftest(fb, R):
 
 SELFTESTS = [(r, 'c07_pipeline.cpp', _selftest) for r in (
     'E1-thread-entry-no-leak', 'E2-end-of-data-on-all-paths', 'E2-catch-all-forwards-exception', 'H1-header-promise-guarded',
-    'H2-run-sets-header', 'S1-status-gates-access', 'S2-handler-closes-marks-error-rethrows', 'S3-close-stores-closed',
+    'H2-run-sets-header', 'H3-header-set-before-object-data', 'X1-parser-handler-keeps-upstream-errors', 'S1-status-gates-access', 'S2-handler-closes-marks-error-rethrows', 'S3-close-stores-closed',
     'S3-close-shutdown-before-join', 'S3-close-idempotent', 'S3-stop-flag-before-join', 'S3-read-loop-tests-stop-flag',
     'S4-parser-fd-loop-observes-close', 'F1-parser-closes-its-descriptor', 'D1-destructor-swallows', 'D1-throwing-call-in-destructor-wrapped', 'L1-referent-declared-before-holder',
     'J1-thread-member-joined', 'P1-add-to-queue-pushes-and-fulfils')]
